@@ -1,1 +1,230 @@
-pub fn placeholder() {}
+//! minilua: a Lua 5.3-subset interpreter used as a stand-in for `lua5.3` (loader fidelity + runtime).
+//!
+//! * `load`  = luaL_loadbuffer: lex + parse + all compile-time checks (classified errors), no execution.
+//! * `run`   = execute a loaded chunk in a fresh global state under step / depth / memory budgets.
+//!
+//! Structure: `lexer.rs` (port of llex.c), `parser.rs` + `grammar.rs` (port of lparser.c's scoping, goto /
+//! label rules, limits, and a simulation of lcode.c's register allocation), `interp.rs` + `ops.rs`
+//! (tree-walking evaluator with Lua 5.3 semantics and error messages), `stdlib.rs` + `strlib.rs`
+//! (base / table / math / string libraries, incl. a port of lstrlib.c's pattern matcher), `numfmt.rs`
+//! (`%g`, `%e`, `%f`, `%a`, lua_Number2str, luaO_str2num), `value.rs` (values, interner, tables).
+//!
+//! Known, deliberate choices (see also the final notes of each module):
+//! * chunk name is always `stdin`; no `arg`, `load`, `coroutine`, `os`/`io` beyond time/clock/write, `utf8`,
+//!   `debug`, `string.pack`, `bit32`.
+//! * `pairs` order: array part in index order, then the other keys in insertion order.
+//! * Lua call depth is limited by `Limits::max_call_depth` (OutOfBudget "stack"), far below real Lua's limit;
+//!   proper tail calls do not consume depth.
+//! * `RunOptions::compat_mathlib` (default true) selects whether `math.pow`, `math.atan2`, ... exist, i.e.
+//!   whether the emulated binary was built with LUA_COMPAT_5_2 (stock makefile, Debian/Ubuntu) or without.
+//! * duplicate labels follow Lua 5.3 (`checkrepeated` only looks at the labels of the *current block*).
+//! * `too-many-registers` is raised when the simulated `maxstacksize` would exceed 255 (real Lua: >= 255).
+
+mod ast;
+mod grammar;
+mod interp;
+mod lexer;
+pub mod numfmt;
+mod ops;
+mod parser;
+mod stdlib;
+mod strlib;
+mod value;
+
+use interp::{Ctl, Interp};
+
+#[derive(Clone, Debug, PartialEq)]
+pub struct LoadError {
+    pub class: String,
+    pub msg: String,
+    pub line: usize,
+}
+
+pub struct Chunk {
+    pub(crate) strings: Vec<Box<[u8]>>,
+    pub(crate) str_index: Vec<u32>,
+    pub(crate) protos: Vec<ast::Proto>,
+    pub(crate) main: u32,
+    pub(crate) env_name: u32,
+    pub(crate) stats: LoadStats,
+    pub(crate) free_names: Vec<(u32, bool, bool)>,
+}
+
+#[derive(Clone, Copy, Debug, Default, PartialEq)]
+pub struct LoadStats {
+    pub max_active_locals: usize,
+    pub max_upvalues: usize,
+    pub max_register_estimate: usize,
+    pub max_c_levels: usize,
+    pub functions: usize,
+}
+
+#[derive(Clone, Debug, PartialEq)]
+pub enum RunOutcome {
+    Ok,
+    Error { msg: String },
+    OutOfBudget { what: String },
+}
+
+pub struct RunResult {
+    pub stdout: Vec<u8>,
+    pub outcome: RunOutcome,
+    pub steps: u64,
+}
+
+#[derive(Clone, Debug)]
+pub struct Limits {
+    pub max_steps: u64,
+    pub max_call_depth: usize,
+    pub max_heap_objects: usize,
+    pub max_string_bytes: usize,
+}
+
+impl Default for Limits {
+    fn default() -> Self {
+        Limits { max_steps: 2_000_000, max_call_depth: 180, max_heap_objects: 2_000_000, max_string_bytes: 64 << 20 }
+    }
+}
+
+fn contains(hay: &[u8], needle: &[u8]) -> bool {
+    hay.windows(needle.len()).any(|w| w == needle)
+}
+
+/// luaL_loadbuffer(src, "=stdin"): lex + parse + compile-time checks. No execution.
+pub fn load(src: &[u8]) -> Result<Chunk, LoadError> {
+    let r = std::panic::catch_unwind(|| load_inner(src));
+    match r {
+        Ok(r) => r,
+        Err(_) => Err(LoadError { class: "internal".to_string(), msg: "minilua internal: panic in loader".to_string(), line: 0 }),
+    }
+}
+
+fn load_inner(src: &[u8]) -> Result<Chunk, LoadError> {
+    // a binary chunk would start with ESC; we only load text
+    let explicit_env = contains(src, b"_ENV");
+    let conv = |e: parser::PErr| LoadError { class: e.class.to_string(), msg: e.msg, line: e.line as usize };
+    let mut p = parser::Parser::new(src, explicit_env).map_err(conv)?;
+    let main = p.mainfunc().map_err(conv)?;
+    let stats = LoadStats {
+        max_active_locals: p.stats.max_active_locals,
+        max_upvalues: p.stats.max_upvalues,
+        max_register_estimate: p.stats.max_register_estimate,
+        max_c_levels: p.stats.max_c_levels,
+        functions: p.stats.functions,
+    };
+    let strings = std::mem::take(&mut p.lex.interner.strings);
+    let str_index = value::build_index(&strings);
+    Ok(Chunk {
+        strings,
+        str_index,
+        protos: std::mem::take(&mut p.protos),
+        main,
+        env_name: p.env_name,
+        stats,
+        free_names: std::mem::take(&mut p.free_names),
+    })
+}
+
+pub fn load_stats(chunk: &Chunk) -> LoadStats {
+    chunk.stats
+}
+
+/// every free (global) name referenced in the chunk: (name, assigned somewhere, assigned inside a nested function)
+pub fn free_global_names(chunk: &Chunk) -> Vec<(String, bool, bool)> {
+    chunk
+        .free_names
+        .iter()
+        .map(|(n, a, b)| (String::from_utf8_lossy(&chunk.strings[*n as usize]).to_string(), *a, *b))
+        .collect()
+}
+
+/// Build-time flavour of the emulated `lua5.3` binary.
+#[derive(Clone, Debug)]
+pub struct RunOptions {
+    /// LUA_COMPAT_MATHLIB (implied by LUA_COMPAT_5_2, which a stock `make` of Lua 5.3 and the Debian/Ubuntu
+    /// `lua5.3` package define): math.pow, math.atan2, math.cosh/sinh/tanh, math.log10, math.frexp/ldexp
+    /// exist. With `false` they are nil (a Lua 5.3 built without compatibility options).
+    pub compat_mathlib: bool,
+    /// Lua 5.3's `assert` ends in `return luaB_error(L)`, so a *string* message gets the usual
+    /// `chunk:line:` prefix of `error(msg, 1)` when `assert` is called from a Lua function (lbaselib.c;
+    /// the 5.3 test suite checks `"%w+%.lua:(%d+): assertion failed!$"`). With `false` the message is
+    /// passed through unchanged (the behaviour people often assume).
+    pub assert_adds_position: bool,
+}
+
+impl Default for RunOptions {
+    fn default() -> Self {
+        RunOptions { compat_mathlib: true, assert_adds_position: true }
+    }
+}
+
+/// Run a chunk in a fresh global state. Never panics; deterministic. Uses `RunOptions::default()`.
+pub fn run(chunk: &Chunk, limits: &Limits) -> RunResult {
+    run_with_options(chunk, limits, &RunOptions::default())
+}
+
+pub fn run_with_options(chunk: &Chunk, limits: &Limits, opts: &RunOptions) -> RunResult {
+    let r = std::panic::catch_unwind(std::panic::AssertUnwindSafe(|| run_inner(chunk, limits, opts)));
+    match r {
+        Ok(r) => r,
+        Err(p) => {
+            let what = if let Some(s) = p.downcast_ref::<&str>() {
+                s.to_string()
+            } else if let Some(s) = p.downcast_ref::<String>() {
+                s.clone()
+            } else {
+                "panic".to_string()
+            };
+            RunResult {
+                stdout: Vec::new(),
+                outcome: RunOutcome::Error { msg: format!("minilua internal: {}", what) },
+                steps: 0,
+            }
+        }
+    }
+}
+
+fn run_inner(chunk: &Chunk, limits: &Limits, opts: &RunOptions) -> RunResult {
+    let mut it = Interp::new(chunk, limits, opts);
+    let r = it.run_main();
+    let outcome = match r {
+        Ok(()) => RunOutcome::Ok,
+        Err(Ctl::Budget(w)) => RunOutcome::OutOfBudget { what: w.to_string() },
+        Err(Ctl::Error(v)) => {
+            // message = tostring of the error value (lua.c msghandler)
+            it.frames.clear();
+            it.lua_depth = 0;
+            it.c_depth = 0;
+            it.steps = it.steps.min(it.max_steps.saturating_sub(10_000));
+            let msg = match v {
+                value::Value::Str(s) => String::from_utf8_lossy(it.str_bytes(s)).to_string(),
+                value::Value::Int(_) | value::Value::Float(_) => {
+                    String::from_utf8_lossy(&it.concat_piece(&v).unwrap_or_default()).to_string()
+                }
+                _ => {
+                    let tm = it.metamethod(&v, interp::sid::TOSTRING);
+                    if !tm.is_nil() {
+                        match it.tostring_value(v) {
+                            Ok(value::Value::Str(s)) => String::from_utf8_lossy(it.str_bytes(s)).to_string(),
+                            _ => format!("(error object is a {} value)", ops::type_name(&v)),
+                        }
+                    } else {
+                        format!("(error object is a {} value)", ops::type_name(&v))
+                    }
+                }
+            };
+            RunOutcome::Error { msg }
+        }
+    };
+    RunResult { stdout: std::mem::take(&mut it.out), outcome, steps: it.steps }
+}
+
+/// Run `f` on a thread with a big stack (the evaluator recurses on the native stack).
+pub fn with_big_stack<T: Send + 'static, F: FnOnce() -> T + Send + 'static>(f: F) -> T {
+    std::thread::Builder::new()
+        .stack_size(256 << 20)
+        .spawn(f)
+        .expect("spawn")
+        .join()
+        .expect("minilua worker thread panicked")
+}
